@@ -171,8 +171,16 @@ func (fc *FnCtx) monitorCall(st *State, c *ast.CallExpr) bool {
 	switch op {
 	case "Lock", "RLock":
 		st.held[key] = tTrue
+		foreign := false
 		for _, f := range m.Fields {
+			if strings.Contains(f, ".") {
+				foreign = true // a field of other objects ("fsFile.readersCount"): any instance may have changed
+				continue
+			}
 			fc.havocPath(st, path+"."+f, c)
+		}
+		if foreign {
+			fc.havocObjects(st, false)
 		}
 		for _, cl := range m.Inv {
 			fc.assume(st, fc.monitorInv(st, m, cl, path, c))
@@ -180,6 +188,9 @@ func (fc *FnCtx) monitorCall(st *State, c *ast.CallExpr) bool {
 		// a ghost named delta_<field> accumulates the net change this call makes to the field while holding the lock;
 		// inside the critical section lock0_<field> names the value the field had when the lock was taken
 		for _, f := range m.Fields {
+			if strings.Contains(f, ".") {
+				continue
+			}
 			if _, ok := st.ghost["delta_"+f]; ok {
 				if e, err := parseSpecExpr(path + "." + f); err == nil {
 					st.ghost["lock0_"+f] = fc.specVal(st, e, &specEnv{fc: fc, st: st, old: fc.entry, at: c.Pos(), scopeNode: c})
@@ -197,6 +208,9 @@ func (fc *FnCtx) monitorCall(st *State, c *ast.CallExpr) bool {
 			fc.assert(st, "monitor", clauseName("monitor["+m.Type+"."+m.Lock+"]", cl, k)+"@unlock", t, c.Pos(), strings.ReplaceAll(cl.Src, "M.", path+"."))
 		}
 		for _, f := range m.Fields {
+			if strings.Contains(f, ".") {
+				continue
+			}
 			d, ok := st.ghost["delta_"+f]
 			v0, ok0 := st.ghost["lock0_"+f]
 			if !ok || !ok0 {
@@ -228,11 +242,31 @@ func (fc *FnCtx) monitorWrite(st *State, lhs ast.Expr) {
 	}
 	tn := typeName(t)
 	for _, m := range fc.eng.monitors() {
-		if m.Type != tn || m.Pkg != fc.pkg.PkgPath {
+		if m.Pkg != fc.pkg.PkgPath {
+			continue
+		}
+		// a field of another type protected by this monitor's lock ("protects fsFile.readersCount")
+		for _, f := range m.Fields {
+			if f != tn+"."+se.Sel.Name {
+				continue
+			}
+			pc := &Clause{Kind: "monitor", Label: "guarded", Props: m.Props}
+			if !fc.clauseActive(pc) {
+				break
+			}
+			h := tFalse
+			for k, v := range st.held {
+				if strings.HasSuffix(k, "."+m.Lock) {
+					h = or(h, v)
+				}
+			}
+			fc.assert(st, "monitor", "guarded["+f+"]", h, lhs.Pos(), "write to "+f+" with a "+m.Type+"."+m.Lock+" held")
+		}
+		if m.Type != tn {
 			continue
 		}
 		for _, f := range m.Fields {
-			if f != se.Sel.Name {
+			if strings.Contains(f, ".") || f != se.Sel.Name {
 				continue
 			}
 			pc := &Clause{Kind: "monitor", Label: "guarded", Props: m.Props}
